@@ -36,15 +36,19 @@ def showSet (xs : List Nat) : String :=
   | [] => "set"
   | l => "set " ++ Proto.joinNat l
 
-/-- canonical order = by id (the list order depends on the order in which the kv snapshot visits
-its files, which is a Go map iteration order) -/
-def showItems (l : List Item) : String :=
-  let sorted := (l.toArray.qsort (fun a b => a.id < b.id || (a.id == b.id && a.name < b.name))).toList
-  ",".intercalate (sorted.map (fun i => s!"{i.name}={i.id}"))
+/-- canonical order = by id (the order of `Fields` / `TagKeys` after a load depends on the order in
+which the kv snapshot visits its files, which is a Go map iteration order) -/
+def showItems (l : List (Nat × Nat)) : String :=
+  let sorted := (l.toArray.qsort (fun a b => a.2 < b.2 || (a.2 == b.2 && a.1 < b.1))).toList
+  ",".intercalate (sorted.map (fun p => s!"{p.1}={p.2}"))
+
+def schemaItems (s : Schema) (tags : Bool) : List (Nat × Nat) :=
+  (s.order.filter (·.1 == tags)).filterMap (fun p =>
+    (if tags then s.findTagKey p.2 else s.findField p.2).map (fun i => (p.2, i)))
 
 def showSchema : Option Schema → String
   | none => "nil"
-  | some s => "f " ++ showItems s.fields ++ " t " ++ showItems s.tagKeys
+  | some s => "f " ++ showItems (schemaItems s false) ++ " t " ++ showItems (schemaItems s true)
 
 def parseTag (w : String) : Option (Nat × Nat) :=
   match w.splitOn ":" with
